@@ -27,6 +27,7 @@
    values, step limits, sizes, the limits, the fee parameters, or the locator
    state (any history of tracker operations, any eviction state). *)
 From Goloop Require Import lib.Bytes Model_Locator Proofs_Locator Model_TxPool Proofs_TxPool.
+From Goloop Require Import Link_C37.
 Open Scope Z_scope.
 
 (* The main statement: whatever the pool holds, the list the proposer selects
@@ -138,3 +139,39 @@ Theorem C37_unfinalized_parent_refuted :
     validate_block st p f g ms bts (candidate (s_mgr st) f g ms bts maxB maxC pool b) b = Some cDup.
 Proof. exact unfinalized_parent_refuted. Qed.
 Print Assumptions C37_unfinalized_parent_refuted.
+
+(* ---- kernel links (Link_C37.v, re-using Link_C11.v).  CheckTxTimestamp,
+   timestampRangeMin/Max (service/tschecker.go), locatorCacheMiss and trackerHasGuard
+   (common/txlocator/manager.go) are re-generated from the Go source on every run
+   (tools/go2coq); the window test and the lookup that proposer and validator share in
+   the theorems above ARE the decisions of the current Go code.  i64 x: x is an int64;
+   ts_err_of_class: class 0 / 1 / 2 -> nil / ExpiredTransactionError / FutureTransactionError ---- *)
+Theorem C37_kernel_CheckTxTimestamp : forall bts th ts, i64 (bts - th) -> i64 (bts + th) ->
+  CheckTxTimestamp (timestampRangeMin bts th) (timestampRangeMax bts th) ts
+  = ts_err_of_class (range_check bts th ts).
+Proof. exact txpool_window_is_kernels. Qed.
+Print Assumptions C37_kernel_CheckTxTimestamp.
+
+Theorem C37_kernel_timestampRange : forall bts th ts, i64 (bts - th) -> i64 (bts + th) ->
+  (in_window bts th ts <->
+   CheckTxTimestamp (timestampRangeMin bts th) (timestampRangeMax bts th) ts = ts_err_of_class 0).
+Proof. exact in_window_is_kernels. Qed.
+Print Assumptions C37_kernel_timestampRange.
+
+Theorem C37_kernel_locatorCacheMiss : forall (m : manager) (g : bool) (id : N) (ts : Z),
+  manager_has m g id ts =
+  if mem id (m_locs m) then true
+  else if locatorCacheMiss (c_max (cache_of m g)) ts then false
+  else mem id (m_db m).
+Proof. exact manager_has_is_kernel. Qed.
+Print Assumptions C37_kernel_locatorCacheMiss.
+
+(* the guard of tracker.Has in the walk parent_has_v VCode of C37_has_agreement *)
+Theorem C37_kernel_trackerHasGuard : forall ts lts lth, i64 (lts + lth) ->
+  skip_own VCode ts (lts + lth) = trackerHasGuard ts lts lth.
+Proof. exact skip_own_is_trackerHasGuard. Qed.
+Print Assumptions C37_kernel_trackerHasGuard.
+
+Theorem C37_kernel_params : Link_C11.kernel_params_pinned.
+Proof. exact Link_C11.kernel_params_ok. Qed.
+Print Assumptions C37_kernel_params.
